@@ -260,6 +260,14 @@ def execute(spec, world):
     cls = type(obj).__name__
     tracked = {"faces_are_convex": base.get("faces_are_convex", True)}
     mutated = 0
+    other = None
+    if spec["index"] % 4 == 1:
+        with world.step(0, 1, use_fs=False):
+            try:
+                other = gen.build(gen.sibling(base))
+                C["runs_with_bystander"] += 1
+            except Exception:  # noqa: BLE001
+                other = None
     reuse = {} if (spec.get("cfg") or {}).get("reuse_point_array") else None
     if reuse is not None:
         C["runs_with_reused_position_array"] += 1
@@ -451,6 +459,13 @@ def execute(spec, world):
             C["solver_uncertified_skips"] += 1
             continue
         # 1. read-back on the object and on a freshly constructed shape
+        if other is not None:
+            # a second, different live shape of the same class is asked first
+            try:
+                with world.step(st["pyseed"] ^ 0x0B57, st["npseed"] ^ 0x0B57, use_fs=False):
+                    _value(history.target_of(other) if st.get("inner") else other, prop)
+            except Exception:  # noqa: BLE001 - whatever the bystander answers
+                pass
         try:
             with world.step(st["pyseed"], st["npseed"], use_fs=False):
                 back = _value(tgt, prop)
